@@ -209,6 +209,9 @@ def random_calls(rnd, uni, n):
     typed = {'gear': [k for k in keys if uni[k]['kind'] in ('SpurGear', 'HelicalGear', 'WormWheel')],
              'worm': [k for k in keys if uni[k]['kind'] in ('WormGear', 'WormWheel')]}
     for _ in range(n):
+        if calls and rnd.random() < 0.15:
+            calls.append(dict(rnd.choice(calls)))          # an earlier call issued AGAIN (route back / re-declare)
+            continue
         c = rnd.choice(['gear', 'gear', 'worm', 'worm', 'joint', 'joint', 'assemble'])
         pool = typed.get(c, keys) if rnd.random() < 0.85 else keys
         m, s = rnd.choice(pool), rnd.choice(pool)
@@ -275,6 +278,9 @@ def _campaign(tier, seed):
     for i in range(600 if tier == 'quick' else 12000):
         calls = []
         for _ in range(rnd.randint(2, 8)):
+            if calls and rnd.random() < 0.15:
+                calls.append(dict(rnd.choice(calls)))      # an earlier call issued again
+                continue
             c = rnd.choice(['gear', 'worm', 'joint', 'joint', 'assemble'])
             m, s = rnd.choice(keys), rnd.choice(keys)
             if c == 'assemble':
@@ -303,6 +309,17 @@ def _campaign(tier, seed):
         [W('W', 'Wh', '2/5'), W('W', 'Wh', '11/10'), W('W', 'Wh', '1/20')],             # rejected re-declaration in between
         [G('S1', 'S2', '9/10'), J('S1', 'S2'), G('S1', 'S2', '1'), J('F', 'S2')],       # mating, joint, mating again, another driver
     ]
+    # route away and BACK: a master's outgoing relation is declared, replaced by another one, and then declared again exactly as it
+    # was (the last declaration per master decides where the chain goes), for every kind of first / intermediate relation
+    first = {'joint': [('M', 'F'), ('F', 'S1'), ('S1', 'S4'), ('M', 'W')], 'gear': [('S1', 'S2'), ('H1', 'H2')], 'worm': [('W', 'Wh'), ('Wh', 'W')]}
+    other = {'M': [J('M', 'S1'), J('M', 'H1')], 'F': [J('F', 'H1'), J('F', 'W2')], 'S1': [G('S1', 'S4', '9/10'), J('S1', 'H3')],
+             'H1': [J('H1', 'S4'), G('H1', 'H0', '1')], 'W': [J('W', 'S4'), W('W', 'Wh2', '1/20')], 'Wh': [J('Wh', 'S4'), G('Wh', 'Wh', '1')]}
+    mk = {'joint': lambda m, x: J(m, x), 'gear': lambda m, x: G(m, x, '9/10'), 'worm': lambda m, x: W(m, x, '1/20')}
+    for kind, pairs in first.items():
+        for (m0, b0) in pairs:
+            for mid in other.get(m0, []):
+                pre = [] if m0 == 'M' else [J('M', m0)] if m0 in ('F', 'S1', 'H1', 'W', 'Wh') else []
+                crafted.append(pre + [mk[kind](m0, b0), A(), mid, A(), mk[kind](m0, b0), A()])
     for i, calls in enumerate(crafted):
         traces.append(execute(f'rc{i}', uni, calls))
     n_replay = len(traces)
